@@ -142,8 +142,9 @@ Definition case_d6 (old : bool) : case :=
      c_ntop := [(LO6_RAW, LO6)];
      c_client := [FS LO6; FI 5555; FI 0; FI 0]; c_conn_local := [];
      c_meth := []; c_hdrs := []; c_name := [97; 255; 98]%N; c_mail := false;
-     c_handlers := [{| h_tag := [48]%N; h_accept := false |}; {| h_tag := [49]%N; h_accept := true |};
-                    {| h_tag := [50]%N; h_accept := true |}] |}.
+     c_handlers := [{| h_tag := [48]%N; h_accept := false; h_reply := [48]%N |};
+                    {| h_tag := [49]%N; h_accept := true; h_reply := [49]%N |};
+                    {| h_tag := [50]%N; h_accept := true; h_reply := [50]%N |}] |}.
 
 Theorem C10_refuted_old_destination :
   holds (case_d6 true) (run_model (case_d6 true)) = ["server_address"%string] /\
